@@ -70,7 +70,9 @@ def mutations_xml(doc_bytes, step):
     n = len(list(t.iter()))
     XSI = 'http://www.w3.org/2001/XMLSchema-instance'
     for idx in range(n):
-        for op in ('delete', 'dup', 'rename', 'text2elt', 'empty', 'nil', 'attr', 'move_up', 'nons', 'comment', 'pi'):
+        for op in ('delete', 'dup', 'rename', 'text2elt', 'empty', 'nil', 'attr', 'move_up', 'nons', 'comment', 'pi',
+                   # type markers naming types OF THE INTERFACE (an array wrapper, the class, the enumeration) and nothing
+                   'type:tns:integerArray', 'type:tns:CArray', 'type:tns:C', 'type:tns:Color', 'type:tns:nope', 'type:zz:C', 'type::'):
             t2 = etree.fromstring(doc_bytes)
             e = list(t2.iter())[idx]
             p = e.getparent()
@@ -85,6 +87,7 @@ def mutations_xml(doc_bytes, step):
                     e.text = None
                 elif op == 'nil': e.set('{%s}nil' % XSI, 'true')
                 elif op == 'attr': e.set('{%s}type' % XSI, 'xs:string')
+                elif op.startswith('type:'): e.set('{%s}type' % XSI, op[5:])
                 elif op == 'comment': e.append(etree.Comment('c'))
                 elif op == 'pi': e.append(etree.ProcessingInstruction('p', 'q'))
                 elif op == 'move_up' and p is not None and p.getparent() is not None: p.getparent().append(e)
@@ -97,6 +100,13 @@ def mutations_xml(doc_bytes, step):
 def jreq(vals):
     c = dict(vals); c['i'] = 5; c['f'] = 2.5; c['b'] = True; c['arr'] = [1]; c['m'] = [1, 2]; c['i8'] = 7; c['u16'] = 9
     return {'f': {'c': c, 'n': 5, 'cs': [c]}}
+
+
+def jreq_w(vals):
+    """the same request for ignore_wrappers=False: every object sits in a one-key map named after its class"""
+    d = jreq(vals)
+    c = d['f']['c']
+    return {'f': {'c': {'C': c}, 'n': 5, 'cs': [{'C': c}]}}
 
 
 ALIENS = ([], {}, 5, -1, 1.5, 'x', '', None, True, [1, [2]], {'q': 1}, [None], 2 ** 70, 'é' * 3)
@@ -139,9 +149,10 @@ def fixed_random_bytes(n):
 
 
 class Family(object):
-    def __init__(self, name, mk_in, mk_out, ctype, wrap=None, dump=None, kind='xml'):
+    def __init__(self, name, mk_in, mk_out, ctype, wrap=None, dump=None, kind='xml', jreq=None):
         self.name, self.mk_in, self.mk_out, self.ctype = name, mk_in, mk_out, ctype
         self.wrap, self.dump, self.kind = wrap, dump, kind
+        self.jreq = jreq or globals()['jreq']
 
 
 def families():
@@ -163,6 +174,13 @@ def families():
         Family('msgpack', MessagePackDocument, MessagePackDocument, 'application/x-msgpack',
                dump=lambda d: msgpack.packb({k.encode(): v for k, v in d.items()} if isinstance(d, dict) else d), kind='dict'),
         Family('http', HttpRpc, JsonDocument, None, kind='flat'),
+        # wrapper documents (ignore_wrappers=False)
+        Family('json_w', lambda **kw: JsonDocument(ignore_wrappers=False, **kw), JsonDocument, 'application/json',
+               dump=lambda d: json.dumps(d).encode(), kind='dict', jreq=jreq_w),
+        Family('yaml_w', lambda **kw: YamlDocument(ignore_wrappers=False, **kw), YamlDocument, 'text/yaml',
+               dump=lambda d: yaml.safe_dump(d).encode(), kind='dict', jreq=jreq_w),
+        Family('msgpack_w', lambda **kw: MessagePackDocument(ignore_wrappers=False, **kw), MessagePackDocument, 'application/x-msgpack',
+               dump=lambda d: msgpack.packb({k.encode(): v for k, v in d.items()} if isinstance(d, dict) else d), kind='dict', jreq=jreq_w),
     ]
 
 
@@ -196,17 +214,17 @@ def corpus(fam, quick):
             for h in HOSTILE:
                 v = dict(VAL); v[k] = h
                 try:
-                    body = fam.dump(jreq(v))
+                    body = fam.dump(fam.jreq(v))
                 except Exception:
                     continue
                 out.append(('leaf %s=%r' % (k, h), {}, body))
-        for name, d in mutate_tree(jreq(VAL)):
+        for name, d in mutate_tree(fam.jreq(VAL)):
             try:
                 body = fam.dump(d)
             except Exception:
                 continue
             out.append((name, {}, body))
-        good = fam.dump(jreq(VAL))
+        good = fam.dump(fam.jreq(VAL))
         for k in range(0, len(good), 5):
             out.append(('trunc%d' % k, {}, good[:k]))
     else:
@@ -243,9 +261,9 @@ def fault_doc(fam, body):
             code = kids['faultcode'].text
             kids['faultstring']
             return True, (code.split(':', 1)[1] if ':' in code else code).split('.')
-        if fam.name in ('json', 'http'):
+        if fam.name in ('json', 'http', 'json_w'):
             doc = json.loads(body.decode('utf8'))
-        elif fam.name == 'yaml':
+        elif fam.name in ('yaml', 'yaml_w'):
             import yaml
             doc = yaml.safe_load(body.decode('utf8'))
         else:
